@@ -762,6 +762,9 @@ package kcp
 //@   requires s.imm() && len(data) <= 1500
 //@   modifies everything
 //@   ensures @C06 [rejected-packet-has-no-effect] calls(UDPSession.kcpInput, s) == old(calls(UDPSession.kcpInput, s)) ==> sameheap(KCP, RingBuffer, segmentHeap, fecDecoder, shardHeap, UDPSession, allelems, allmaps)
+//@   ensures @C06 [rejected-packet-does-not-reach-the-reader-as-an-error] calls(UDPSession.kcpInput, s) == old(calls(UDPSession.kcpInput, s))
+//@        ==> (closed(s.chSocketReadError) == old(closed(s.chSocketReadError))) && (oncedone(s.socketReadErrorOnce) == old(oncedone(s.socketReadErrorOnce)))
+//@         && (closed(s.die) == old(closed(s.die))) && (closed(s.chSocketWriteError) == old(closed(s.chSocketWriteError)))
 //
 // Listener.
 //@ pred (l *Listener) imm() = l.sessions != nil && l.chAccepts != nil
